@@ -165,7 +165,7 @@ def fresh_dir(tag="c"):
     """A fresh empty scratch directory (removed by `drop_dir` or at exit)."""
     global _case_dir_n
     _case_dir_n += 1
-    path = os.path.join(scratch_root(), "%s%d" % (tag, _case_dir_n))
+    path = os.path.join(scratch_root(), "%s-%d-%d" % (tag, os.getpid(), _case_dir_n))
     os.makedirs(path)
     return path
 
